@@ -37,7 +37,10 @@ TASK_ENDS = {"ok": {"hook_exit": 0, "hook_voluntary": True}, "exit1": {"hook_exi
              "exit3killed": {"hook_exit": 3, "hook_voluntary": False}, "silent": {"hook_silent": True}}
 
 
-def scenario(sid, case, gate=None, timeout="5s", gap_ms=0, pad=False, taskhook=None, nonumber=False, blank=None, both=False):
+def scenario(sid, case, gate=None, timeout="5s", gap_ms=0, pad=False, taskhook=None, nonumber=False, blank=None, both=False,
+             sametext=False, destroy_during=False):
+    # destroy_during (with gate): a forced DESTROY is requested while the gated START is in progress; it waits for the
+    # transition to end and then tears down what the transition left (a RUNNING environment: the run must be ended)
     # blank: "empty" / "absent" - how an await that equals the trigger is spelled (default: written out)
     """pad: weights spelled with leading zeros (+005); taskhook = (end_if_fails, end_if_ok): hook h1 is a hook TASK, not a call."""
     cls = "ehs%dt1" % sid
@@ -60,6 +63,8 @@ def scenario(sid, case, gate=None, timeout="5s", gap_ms=0, pad=False, taskhook=N
         b = {"outcome": "fail" if h["fails"] else "ok"}
         if gate == h["id"]:
             b["gate"] = "G"
+        if sametext:    # every failing hook fails with the same words (as hooks that share a cause do)
+            b["text"] = "scripted failure (the same text for every hook)"
         hooks[h["id"]] = b
     if taskhook and both:
         # company: ten more hook tasks at the same step, non-critical, hanging like the others - their timeouts fire with the
@@ -78,7 +83,12 @@ def scenario(sid, case, gate=None, timeout="5s", gap_ms=0, pad=False, taskhook=N
     for i, ev in enumerate(case["plan"], start=1):
         if i in case["bodyfails"]:
             steps.append({"do": "script", "rule": {"class": cls, "event": TEV[ev], "outcome": "err_src", "times": 1}})
-        if gate:
+        if gate and destroy_during:
+            steps += [{"do": "control", "env": "e1", "op": ev, "caller": "A%d" % i},
+                      {"do": "waitgate", "point": "probe:G", "timeout_ms": 2000},
+                      {"do": "destroy", "env": "e1", "force": True, "caller": "D"}, {"do": "settle", "ms": 80},
+                      {"do": "ungate", "point": "probe:G"}, {"do": "await", "caller": "A%d" % i}, {"do": "await", "caller": "D"}]
+        elif gate:
             steps += [{"do": "control", "env": "e1", "op": ev, "caller": "A%d" % i},
                       {"do": "waitgate", "point": "probe:G", "timeout_ms": 250}, {"do": "settle", "ms": 60},
                       {"do": "ungate", "point": "probe:G"}, {"do": "await", "caller": "A%d" % i}]
@@ -88,7 +98,10 @@ def scenario(sid, case, gate=None, timeout="5s", gap_ms=0, pad=False, taskhook=N
             steps.append({"do": "sleep", "ms": gap_ms})   # lets a declared call timeout elapse before the next request
     if nonumber:
         steps.append({"do": "kvfault", "kind": "off"})
-    steps += [{"do": "destroy", "env": "e1", "force": True}, {"do": "settle", "ms": 20}]
+    if destroy_during:
+        steps.append({"do": "settle", "ms": 20})
+    else:
+        steps += [{"do": "destroy", "env": "e1", "force": True}, {"do": "settle", "ms": 20}]
     if not gate and not gap_ms:
         steps.append({"do": "pendingcalls"})
     pred = case["pred"]
@@ -233,7 +246,11 @@ def run_family(ctx, pid):
     gated = [c for c in interesting if any(h["id"] == "h1" and (h["tm"], h["tw"]) != (h["am"], h["aw"]) for h in c["hooks"])]
     # the schedule-sensitive family: same moment, later weight
     samemom = [c for c in gated if any(h["id"] == "h1" and h["tm"] == h["am"] for h in c["hooks"])]
-    gated = samemom[:(10 if quick else 60)] + gated[:(25 if quick else 200)]
+    # ... and an await point that lies between two triggers of the moment (catalogue Cfg5): always replayed
+    def between(c):
+        h1, h2 = (next(h for h in c["hooks"] if h["id"] == i) for i in ("h1", "h2"))
+        return h1["tm"] == h1["am"] == h2["tm"] and h1["tw"] < h1["aw"] < h2["tw"]
+    gated = [c for c in samemom if between(c)] + [c for c in samemom if not between(c)][:(10 if quick else 60)] + gated[:(25 if quick else 200)]
     scenarios = []
     sid = 0
     for c in plain:
@@ -283,12 +300,25 @@ def run_family(ctx, pid):
         for how in ("empty", "absent"):
             sid += 1
             scenarios.append(scenario(sid, c, blank=how))
+    # a forced DESTROY requested while START_ACTIVITY is in progress (held in a hook): it is served after the transition
+    ndd = 0
+    for c in [x for x in cases if x["plan"] == ["START_ACTIVITY"] and not x["bodyfails"] and not any(h["fails"] for h in x["hooks"])
+              and any(h["id"] == "h1" and h["tm"] in ("before_START_ACTIVITY", "leave_CONFIGURED") for h in x["hooks"])][:(6 if quick else 40)]:
+        sid += 1
+        ndd += 1
+        scenarios.append(scenario(sid, c, gate="h1", destroy_during=True))
+    # two hooks failing in one moment with the very same error text, one critical and one not
+    nst = 0
+    for c in [x for x in meet if all(h["fails"] for h in x["hooks"]) and len({h["crit"] for h in x["hooks"]}) == 2][:(40 if quick else 400)]:
+        sid += 1
+        nst += 1
+        scenarios.append(scenario(sid, c, sametext=True))
     nn = 0
     for c in single_ok[:(6 if quick else 20)] + second_run[:2]:
         sid += 1
         nn += 1
         scenarios.append(scenario(sid, c, nonumber=True))
-    ctx.log("cases from TLC: %d; scenarios: %d plain + %d gated + %d slow + %d padded + %d task-hook + %d without a run number" % (len(cases), len(plain), len(gated), len(slow), len(padded), ntask, nn))
+    ctx.log("cases from TLC: %d; scenarios: %d plain + %d gated + %d slow + %d padded + %d task-hook + %d without a run number + %d with one error text + %d destroyed during START" % (len(cases), len(plain), len(gated), len(slow), len(padded), ntask, nn, nst, ndd))
     # 3. run on the real core, 4. validate
     judge(ctx, pid, scenarios, cs.run_scenarios(ctx, scenarios))
 
